@@ -427,61 +427,102 @@ func c01SegmentLoop(c *Ctx) {
 	}
 	// depth mode: depthSoFar >= limit leaves the loop; dominates the back edges of depth mode
 	depthTest := false
+	depthPat := Op("binop", ">=", Bind("sofar"), Call("selector.RecursionLimit).Depth"))
 	for _, b := range h.Blocks {
 		iff, ok := b.Instrs[len(b.Instrs)-1].(*ssa.If)
-		if !ok || !ReachableFrom(S)[b] || !head.Dominates(b) {
+		if !ok || !ReachableFrom(S)[b] || !head.Dominates(b) || depthTest {
 			continue
 		}
-		cx := c.E(iff.Cond)
-		if bb, m := Match(Op("binop", ">=", Bind("sofar"), Call("selector.RecursionLimit).Depth")), cx); m {
-			// sofar = phi + nextDepth
-			_, acc := Match(Bin("+", Op("phi", "depthSoFar"), Op("phi", "nextDepth")), bb["sofar"])
-			if !acc {
-				_, acc = Match(Bin("+", Op("phi", ""), Op("phi", "")), bb["sofar"])
-			}
-			leaves := !ReachableFrom(b.Succs[0])[head]
-			depthTest = true
-			c.Check(acc && leaves, "C01.e-loop-tests", key+" › depth exhausted", iff.Pos(),
-				"in depth mode, (depth so far + this segment's depth) >= limit leaves the loop", "the depth test does not compare the accumulated depth with the limit, or does not leave the loop")
-			// remaining depth: limit - accumulated
-			okRem := false
-			instrs(h, func(in ssa.Instruction) {
-				if bo, ok := in.(*ssa.BinOp); ok && bo.Op == token.SUB {
-					x := c.E(bo)
-					if _, m := Match(Op("binop", "-", Call("selector.RecursionLimit).Depth"), Is(bb["sofar"])), x); m {
-						okRem = true
-					}
+		// the test itself, or the test made by a helper whose boolean result is branched on here
+		var bb Binds
+		leaves := false
+		for edge := 0; edge < 2 && bb == nil; edge++ {
+			cx, v := normFact(c.E(iff.Cond), edge == 0)
+			facts := append([]Fact{{Cond: cx, Val: v}}, c.impliedFacts(Fact{Cond: cx, Val: v})...)
+			for _, f := range facts {
+				if m, ok := Match(depthPat, f.Cond); ok && f.Val {
+					bb = m
+					leaves = !ReachableFrom(b.Succs[edge])[head]
 				}
-			})
-			c.Check(okRem, "C01.e-depth-flow", key+" › remaining depth", iff.Pos(),
-				"the depth left for the next segment is computed as limit − (depth synced so far)", "the next segment's depth is not derived from limit − depth synced so far: the traversal over- or undershoots the depth limit for some segment sizes")
-			// the next segment's depth (phi at the loop head) takes only: the segment size, itself, or the remaining depth
-			var nd *ssa.Phi
-			for _, in := range head.Instrs {
-				if ph, ok := in.(*ssa.Phi); ok && ph.Comment == "nextDepth" {
+			}
+		}
+		if bb == nil {
+			continue
+		}
+		// sofar = (accumulated so far) + (this segment's depth), both carried around the loop
+		_, acc := Match(Bin("+", Op("phi", ""), Op("phi", "")), bb["sofar"])
+		depthTest = true
+		c.Check(acc && leaves, "C01.e-loop-tests", key+" › depth exhausted", iff.Pos(),
+			"in depth mode, (depth so far + this segment's depth) >= limit leaves the loop", "the depth test does not compare the accumulated depth with the limit, or does not leave the loop")
+		// remaining depth: limit - accumulated (computed in the loop or in a helper it calls)
+		remPat := Op("binop", "-", Call("selector.RecursionLimit).Depth"), Is(bb["sofar"]))
+		okRem := false
+		c.WalkInl(h, 2, func(ev InlEvent) {
+			if bo, ok := ev.In.(*ssa.BinOp); ok && bo.Op == token.SUB {
+				if _, m := Match(remPat, subst(c.E(bo), ev.Env)); m {
+					okRem = true
+				}
+			}
+		})
+		c.Check(okRem, "C01.e-depth-flow", key+" › remaining depth", iff.Pos(),
+			"the depth left for the next segment is computed as limit − (depth synced so far)", "the next segment's depth is not derived from limit − depth synced so far: the traversal over- or undershoots the depth limit for some segment sizes")
+		// the next segment's depth (the loop-carried value handed to the per-segment selector) takes only: the
+		// segment size, itself, or the remaining depth
+		var nd *ssa.Phi
+		for _, cs := range c.Calls(h, Call("selector.RecursionLimitDepth")) {
+			if len(cs.X.Args) == 1 {
+				if ph, ok := cs.X.Args[0].V.(*ssa.Phi); ok && ph.Block() == head {
 					nd = ph
 				}
 			}
-			if nd == nil {
-				c.Unk("C01.e-depth-flow", key+" › next segment depth", head.Instrs[0].Pos(), "no loop-carried segment depth found")
-			} else {
-				okEdges := true
-				for _, e := range nd.Edges {
-					x := c.E(e)
-					switch {
-					case x.Op == "param":
-					case e == ssa.Value(nd):
-					case x.Op == "phi" && x.V == ssa.Value(nd):
-					default:
-						if _, m := Match(Op("binop", "-", Call("selector.RecursionLimit).Depth"), Is(bb["sofar"])), x); !m {
-							okEdges = false
-						}
+		}
+		if nd == nil {
+			c.Unk("C01.e-depth-flow", key+" › next segment depth", head.Instrs[0].Pos(), "no loop-carried segment depth found")
+			continue
+		}
+		var okVal func(x *X, d int) bool
+		okVal = func(x *X, d int) bool {
+			x = strip(x)
+			switch {
+			case x == nil || d > 4:
+				return false
+			case x.Op == "param":
+				return true
+			case x.V == ssa.Value(nd):
+				return true
+			}
+			if _, m := Match(remPat, x); m {
+				return true
+			}
+			if x.Op == "phi" {
+				for _, a := range x.Args {
+					if !okVal(a, d+1) {
+						return false
 					}
 				}
-				c.Check(okEdges, "C01.e-depth-flow", key+" › next segment depth", nd.Pos(),
-					"segment depth is the configured segment size until the remaining depth is smaller, then the remaining depth", "segment depth takes a value other than the segment size or the remaining depth")
+				return len(x.Args) > 0
+			}
+			if alts := c.RetAlts(x); len(alts) > 0 {
+				for _, a := range alts {
+					if !okVal(a.Val, d+1) {
+						return false
+					}
+				}
+				return true
+			}
+			return false
+		}
+		okEdges := true
+		for _, e := range nd.Edges {
+			if e == ssa.Value(nd) {
+				continue
+			}
+			if !okVal(c.E(e), 0) {
+				okEdges = false
 			}
 		}
+		c.Check(okEdges, "C01.e-depth-flow", key+" › next segment depth", nd.Pos(),
+			"segment depth is the configured segment size until the remaining depth is smaller, then the remaining depth", "segment depth takes a value other than the segment size or the remaining depth")
 	}
 	if !depthTest {
 		c.Bad("C01.e-loop-tests", key+" › depth exhausted", seg.In.Pos(), "no test of accumulated depth against the limit in the loop")
